@@ -22909,6 +22909,75 @@ pub mod verif_hooks {
 	}
 }
 
+/// Verification hooks (feature `_verif_hooks` only); see `ln::verif_hooks`. Forward-admission
+/// checks of a live channel, by value.
+#[cfg(feature = "_verif_hooks")]
+pub mod verif_hooks_fwdadm {
+	use super::*;
+
+	impl<
+			M: chain::Watch<SP::EcdsaSigner>,
+			T: BroadcasterInterface,
+			ES: EntropySource,
+			NS: NodeSigner,
+			SP: SignerProvider,
+			F: FeeEstimator,
+			R: Router,
+			MR: MessageRouter,
+			L: Logger,
+		> ChannelManager<M, T, ES, NS, SP, F, R, MR, L>
+	{
+		/// Runs `FundedChannel::htlc_satisfies_config` of the given channel on an incoming HTLC of
+		/// `in_amount_msat`/`in_cltv_expiry` to be forwarded as `amt_to_forward`/
+		/// `outgoing_cltv_value`. `None` if there is no such funded channel.
+		pub fn verif_htlc_satisfies_config(
+			&self, counterparty_node_id: &PublicKey, channel_id: &ChannelId, in_amount_msat: u64,
+			in_cltv_expiry: u32, amt_to_forward: u64, outgoing_cltv_value: u32,
+		) -> Option<Result<(), String>> {
+			let msg = msgs::UpdateAddHTLC {
+				channel_id: *channel_id,
+				htlc_id: 0,
+				amount_msat: in_amount_msat,
+				payment_hash: PaymentHash([0; 32]),
+				cltv_expiry: in_cltv_expiry,
+				skimmed_fee_msat: None,
+				onion_routing_packet: msgs::OnionPacket {
+					version: 0,
+					public_key: Err(bitcoin::secp256k1::Error::InvalidPublicKey),
+					hop_data: [0; 20 * 65],
+					hmac: [0; 32],
+				},
+				blinding_point: None,
+				hold_htlc: None,
+				accountable: None,
+			};
+			let per_peer_state = self.per_peer_state.read().unwrap();
+			let peer_state_mutex = per_peer_state.get(counterparty_node_id)?;
+			let peer_state = peer_state_mutex.lock().unwrap();
+			let chan = peer_state.channel_by_id.get(channel_id).and_then(Channel::as_funded)?;
+			Some(
+				chan.htlc_satisfies_config(&msg, amt_to_forward, outgoing_cltv_value)
+					.map_err(|e| format!("{:?}", e)),
+			)
+		}
+
+		/// The current and the previous (not yet expired) forwarding parameters of a channel as
+		/// `(forwarding_fee_proportional_millionths, forwarding_fee_base_msat, cltv_expiry_delta)`.
+		pub fn verif_forwarding_configs(
+			&self, counterparty_node_id: &PublicKey, channel_id: &ChannelId,
+		) -> Option<((u32, u32, u16), Option<(u32, u32, u16)>)> {
+			let per_peer_state = self.per_peer_state.read().unwrap();
+			let peer_state_mutex = per_peer_state.get(counterparty_node_id)?;
+			let peer_state = peer_state_mutex.lock().unwrap();
+			let chan = peer_state.channel_by_id.get(channel_id)?;
+			let view = |c: ChannelConfig| {
+				(c.forwarding_fee_proportional_millionths, c.forwarding_fee_base_msat, c.cltv_expiry_delta)
+			};
+			Some((view(chan.context().config()), chan.context().prev_config().map(view)))
+		}
+	}
+}
+
 /// Verification hooks (feature `_verif_hooks` only); see `ln::verif_hooks`.
 #[cfg(feature = "_verif_hooks")]
 pub mod verif_hooks_monupd {
